@@ -313,7 +313,15 @@ Fixpoint h3_replay (s : h3state) (steps : list (h3op * h3obs)) : bool :=
   | (o, (present, use)) :: rest =>
       let s' := h3_apply s o in
       match clients s' 0 with
-      | Some cl => present && (cl_use s' cl =? use)%Z && h3_replay s' rest
+      | Some cl =>
+          if present then (cl_use s' cl =? use)%Z && h3_replay s' rest
+          else
+            (* admissible, not equal: when the request that started a dial is cancelled, its
+               RoundTripOpt sees either its context (entry stays, with the failed dial) or the
+               closed dial channel (dialErr: removeClientEntry) - both are ready, select picks
+               one.  An unused entry with a failed dial may therefore be absent already. *)
+            stale s' cl && (cl_use s' cl =? 0)%Z &&
+            h3_replay (set3_clients (upd (clients s') 0 None) s') rest
       | None => negb present && h3_replay s' rest
       end
   end.
@@ -330,7 +338,8 @@ Inductive c09_case :=
 | AsyncDumpCase (chunks : list bytes) (dumped : bytes)
 | ProxyCase (a b : cmethod) (same_conn : bool)
 | ShareDialCase (e : dial_err) (waiters dials : nat) (owner_ok : bool) (waiters_ok : list bool)
-| H3ReplayCase (steps : list (h3op * h3obs)).
+| H3ReplayCase (steps : list (h3op * h3obs))
+| H2ReqHdrCase (peer_max : nat) (obs : list (list nat * bool)).
 
 Definition c09_check (c : c09_case) : bool :=
   match c with
@@ -347,4 +356,5 @@ Definition c09_check (c : c09_case) : bool :=
   | ProxyCase a b same => proxy_case_ok a b same
   | ShareDialCase e nw d o ws => share_dial_ok e nw d o ws
   | H3ReplayCase steps => h3_replay h3_init steps
+  | H2ReqHdrCase pm obs => reqhdr_replay pm hsend_init obs
   end.
